@@ -64,6 +64,7 @@ class Profile:
         self.bounded_p = None  # probability that a numeric fluent type carries bounds (None: 0.6 int / 0.5 real)
         self.zero_bound_p = 0.25  # ... that a bounded type has 0 as an endpoint
         self.self_update_p = 0.25  # ... that a numeric assignment is  f := f +/- c
+        self.neg_quant_bias = False  # negations sit directly on quantifiers, and a problem uses ONE quantifier kind
         self.static_p = 0.0  # probability that a fluent with parameters is static (never an effect target)
         self.param_name_pool = None  # names for action parameters AND (half of the) bound variables: capture-prone
         for k, v in kw.items():
@@ -84,6 +85,7 @@ class Gen:
         self.fluents: List[dict] = []
         self.ifuns: List[dict] = []
         self._names_used = set()
+        self._quant_kind = None
         self._names_by_prefix: Dict[str, List[str]] = {}
 
     # ------------------------------------------------------------ basic draws
@@ -462,10 +464,22 @@ class Gen:
         if self.p.implies_iff and self.p.disjunction and self.p.negation:
             opts += ["implies", "iff"]
         if self.p.quantifiers:
-            opts += ["exists", "forall"]
+            if self.p.neg_quant_bias:
+                if self._quant_kind is None:
+                    self._quant_kind = self.pick(["exists", "forall"])
+                opts += [self._quant_kind, self._quant_kind, "notq", "notq"]
+            else:
+                opts += ["exists", "forall"]
         k = self.pick(opts)
         if k == "atom":
             return self.bool_atom(scope, depth)
+        if k == "notq":
+            # the dual-quantifier shape: not exists v. body  /  not forall v. body
+            vt = ["user", self.pick(self.types)[0]]
+            vn = f"v{len(scope['vars'])}"
+            sc2 = dict(scope)
+            sc2["vars"] = scope["vars"] + [(vn, vt)]
+            return ["not", [self._quant_kind, [[vn, vt]], self.bool_expr(sc2, depth - 1)]]
         if k == "not":
             return ["not", self.bool_expr(scope, depth - 1)]
         if k in ("and", "or"):
